@@ -123,6 +123,43 @@ def c16_semantic(which: int, v: int, entry: int) -> str:
     return "~accepted"
 
 
+TRICKY = [
+    "let big 1.0e999\nregister r[1]\ng r[0] big\n", "let small -1.0e-999\n", "let n 99999999999999999999999999999999\nregister r[1]\n",
+    "register r[99999999999999999999]\n", "register r[1]\ng r[0] 1.0e999\n", "register r[1]\ng r[99999999999999999999999]\n",
+    "register r[2]\nmap a r[0:99999999999999999999:99999999999999999]\n", "loop 99999999999999999999999 { }\n",
+    "register r[1]\n" + "{ " * 30 + "}" * 30, "register r[1]\n" + "loop 1 " * 1 + "{ <" + " g r[0] |" * 40 + " > }\n", "let x +.5\n", "let x -0.0\nregister r[1]\ng r[0] x\n",
+    "register r[1]\nmacro m a b c d e f { g a }\nm r[0] 1 2 3 4 5\n", "g" + " 1" * 200 + "\n", "register r[1]\ng r[0] 00012\n", "let x 1e5\n", "'0101':{}\n",
+    "register r[3]\nmap a r[2:0:-1]\ng a[0]\n", "register r[1]\nsubcircuit 0 { g r[0] }\n", "register r[1]\nsubcircuit -1 { g r[0] }\n", "register r[1]\nloop -1 { g r[0] }\n",
+]
+
+
+def c16_tricky(which: int, entry: int) -> str:
+    """Unusual but finite concrete texts (huge and non-finite literals, deep nesting, long lines, negative
+    counts): only a result, JaqalError or ImportError."""
+    text = TRICKY[which]
+    try:
+        if entry == 0:
+            parse_jaqal_string(text, autoload_pulses=False)
+        elif entry == 1:
+            from jaqalpaq.generator import generate_jaqal_program
+            c = parse_jaqal_string(text, autoload_pulses=False)
+            parse_jaqal_string(generate_jaqal_program(c), autoload_pulses=False)
+        else:
+            parse_jaqal_string(text, autoload_pulses=False, expand_macro=True, expand_let=True, expand_let_map=True)
+    except JaqalParseError as ex:
+        bad = _position_ok(text, ex)
+        return f"{bad} for {text[:60]!r}" if bad else "~rejected"
+    except JaqalError:
+        return "~rejected"
+    except ImportError:
+        return "~rejected"
+    except RecursionError as ex:
+        return f"RecursionError escaped for {text[:60]!r}"
+    except Exception as ex:
+        return f"{exc(ex)} escaped for {text[:60]!r} (entry {entry})"
+    return ""
+
+
 POOL = ["register r[2]\ng r[0]\n", "<", "register r[2]\nmacro m a { g a }\nm r[1]\n", "g $", "let a 1\nlet a 2\n", "{ g ; < h | k > }\n", "/* x", "loop 2 { g }",
         "register r[1]\nsubcircuit 2 { g r[0] }\n", "from a.b usepulses *\nlet x 1.5\n"]
 
